@@ -38,6 +38,10 @@ func ReadWhitespace(r *bufio.Reader) {
 
 // ReadValue will read and return an S-Expression value from the reader
 func ReadValue(r *bufio.Reader) (Value, bool) {
+	return readValue(r, 0)
+}
+
+func readValue(r *bufio.Reader, depth int) (Value, bool) {
 	ReadWhitespace(r)
 	c, err := peek(r)
 	if err != nil {
@@ -45,7 +49,7 @@ func ReadValue(r *bufio.Reader) (Value, bool) {
 	}
 	switch c {
 	case '(':
-		return ReadList(r), false
+		return readList(r, depth), false
 	case ')':
 		return nil, true
 	case '"':
